@@ -64,7 +64,7 @@ func concBuild(c Sx) *rpEnv {
 
 func concServe(env *rpEnv, rq Sx, th *concThread) Sx {
 	w := newRecWriter(nil)
-	rec := &rpRecorder{thread: th}
+	rec := &rpRecorder{thread: th, router: env.r}
 	req := &http.Request{Method: rq.List[0].Str(), URL: &url.URL{Path: rq.List[1].Str()}, Header: http.Header{}, Proto: "HTTP/1.1", ProtoMajor: 1, ProtoMinor: 1}
 	req = req.WithContext(context.WithValue(context.Background(), rpKey{}, rec))
 	rec.req = req
@@ -164,6 +164,9 @@ func c03Gen(r *Rng, tier string, i int) Sx {
 			ops = append(ops, L(A("yield")), L(A("next")), L(A("yield")))
 		}
 		ops = append(ops, ev(h*10+1), L(A("yield")))
+		if r.Chance(1, 4) { // what the request sees of its own context after other requests have run
+			ops = append(ops, L(A("snap")), L(A("isab")))
+		}
 		return ops
 	}
 	mw := func() Sx {
